@@ -9,6 +9,7 @@ T=$(mktemp -d)
 trap 'rm -rf "$T"' EXIT
 cat > $T/ov.json <<J
 {"Replace": {"/repo/pkg/fs/zz_conformance_test.go": "$V/conformance/fs_conformance_test.go",
-             "/repo/pkg/iprange/zz_conformance_test.go": "$V/conformance/lib_conformance_test.go"}}
+             "/repo/pkg/iprange/zz_conformance_test.go": "$V/conformance/lib_conformance_test.go",
+             "/repo/pkg/iprange/zz_conformance2_test.go": "$V/conformance/lib2_conformance_test.go"}}
 J
 cd /repo && go test -overlay $T/ov.json -vet=off -count=1 -timeout 300s -run 'TestConformance' ./pkg/fs ./pkg/iprange
